@@ -128,6 +128,9 @@ func run(seed int64, n int, dir string, _ []string) {
 		{"UPDATE a SET v = 1; ROLLBACK; SELECT COUNT(*) FROM a;", true, nil, "dml-rollback", nil},
 		{"CREATE TABLE `c.csv` (x, y); INSERT INTO `c.csv` VALUES (1, 2); COMMIT; UPDATE `c.csv` SET y = 3;", false, nil, "create-commit-update", nil},
 		{"SELECT * FROM nosuch;", true, nil, "missing-table", nil},
+		// the preload commands of $HOME/.csvqrc run before the command itself: a signal there is a signal like any other
+		{"SELECT COUNT(*) FROM b;", false, nil, "preload-update", nil},
+		{"UPDATE b SET w = 'z' WHERE id < 2;", false, nil, "preload-update-then-update", nil},
 		// one commit over a created and two updated tables: whenever the run is ended, either all three reached the disk or none
 		{"CREATE TABLE `c.csv` (x, y); INSERT INTO `c.csv` VALUES (1, 2); UPDATE a SET v = 9 WHERE id < 5; INSERT INTO b VALUES (100, 'n');", false, nil, "create-and-update-one-commit", []string{"c.csv", "a.csv", "b.csv"}},
 		{"CREATE TABLE `c.csv` (x, y); CREATE TABLE `d.csv` (z); INSERT INTO `d.csv` VALUES (7); DELETE FROM b WHERE id > 20; COMMIT; SELECT COUNT(*) FROM a;", false, nil, "two-created-one-updated-commit", []string{"c.csv", "d.csv", "b.csv"}},
@@ -136,6 +139,11 @@ func run(seed int64, n int, dir string, _ []string) {
 	obstacles(o, bin, scratch, mk)
 	vanishing(o, bin, scratch)
 
+	preload := func(p prog, d string) {
+		if strings.HasPrefix(p.kind, "preload-") {
+			must(os.WriteFile(filepath.Join(d, ".csvqrc"), []byte("UPDATE a SET v = 8 WHERE id < 4; CREATE TABLE `p.csv` (q); INSERT INTO `p.csv` VALUES (1); COMMIT; UPDATE a SET v = 7 WHERE id < 2;\n"), 0o644))
+		}
+	}
 	check := func(p prog, d string, before map[string]string, how string, r result) {
 		after := snapshot(d)
 		var left []string
@@ -156,7 +164,8 @@ func run(seed int64, n int, dir string, _ []string) {
 			o.Law("internal_error_on_termination", rep)
 		}
 		for _, c := range p.creates {
-			if _, ok := after[c]; ok && r.rc != 0 {
+			// an EXIT ends the procedure without commit and with status 0: what it had created is gone all the same
+			if _, ok := after[c]; ok && (r.rc != 0 || strings.HasSuffix(p.kind, "-then-exit")) {
 				rep["uncommitted_created"] = c
 				o.Law("uncommitted_created_table_left", rep)
 			}
@@ -198,6 +207,11 @@ func run(seed int64, n int, dir string, _ []string) {
 
 	budget := n
 	for pi, p := range progs {
+		mk := func(tag string) string {
+			d := mk(tag)
+			preload(p, d)
+			return d
+		}
 		// 1. plain run (success / error / EXIT) and the list of points it reaches
 		d := mk(fmt.Sprintf("%d", pi))
 		before := snapshot(d)
